@@ -99,6 +99,8 @@ def check_pieces(chain, qq_min, qq_max, break_halves, pieces):
     rects = []
     for p in pieces:
         toks = piece_tokens(p) if isinstance(p, str) else None
+        if p == 'ALL':
+            toks = []           # the whole section, divided zero times
         if toks is None:
             return f"piece {p!r} is not a sequence of NE|NW|SE|SW|N2|S2|E2|W2"
         r = piece_rect(toks)
